@@ -252,7 +252,7 @@ pub fn gen_dedication(ctx: &mut Ctx) -> Option<FCase> {
             ("map", &["map(x{d})", "map(x{d}, ~ + {n})", "from(y{d})", "into_existing(z{d})"]),
             ("ghost", &["ghost({ {n} })", "ghost_owned({ {n} })", "ghost_ref({ {n} })"]),
             ("child", &["child(p)", "child(p.q)"]),
-            ("parent", &["parent", "parent(pa{d}, pb{d})"]),
+            ("parent", &["parent", "parent(pa{d}, pb{d})", "parent(pa{d}, [parent(pc{d})] pn{d})", "parent(pa{d}, [parent(pc{d})] pn{d}: Pn)"]),
             ("as_type", &["as_type(i64)", "as_type(w{d}, i64)"]),
             ("where_clause", &["where_clause(P{d}: Clone)"]),
             ("ghosts", &["ghosts(g{d}: { {n} })", "ghosts_owned(g{d}: { {n} })"]),
@@ -297,8 +297,13 @@ pub fn gen_dedication(ctx: &mut Ctx) -> Option<FCase> {
             type_attrs.push(Instr::new("child_parents", None, "p: P, p.q: Q"));
         }
         let mut it = Item::new_struct("S", Shape::Named, vec![Field { attrs: m_attrs, name: Some("m".into()), ty: m_ty.into() }, Field::named("b", "i32")]);
+        // T is either mapped both ways or only converted into (an untyped nested parent is legal for Into-only counterparts)
+        let t_into_only = ctx.flag();
+        if t_into_only {
+            tags.push("T=into-only".into());
+        }
         for cp in ["T", "U"] {
-            it.attrs.push(Instr::new("map", None, cp));
+            it.attrs.push(Instr::new(if cp == "T" && t_into_only { "into" } else { "map" }, None, cp));
             it.attrs.push(Instr::new("into_existing", None, cp));
         }
         it.attrs.extend(type_attrs);
